@@ -180,6 +180,24 @@ Definition run_events (p : prog) (f0 : bool) : list devent := if skipped p then 
 
 (* _run_prepared_result once everything has run: the outcome call (with the dict it carries), what
    run() lets out, the detail part afterwards *)
+(* [lr]: what the RunTest's handler of last resort reports *)
+Definition conclude_with (lr : option outcome) (p : prog) (hs : list handler) (X : list exc) (D : dst) : list tev * option exc * dst :=
+  match p_skip p with
+  | Some r => ([TOut OSkip [(n_reason, OReason (Some r))]], None, D)
+  | None =>
+      match choose hs X with
+      | None => ([TOut OSuccess (details_at D)], None, D)
+      | Some e =>
+          match lookup hs e with
+          | Some h =>
+              let D' := if h_reason h then d_put n_reason (CReason (arg_of e)) D else D in
+              (match h_out h with Some o => [TOut o (details_at D')] | None => [] end, None, D')
+          | None => (match lr with Some o => [TOut o (details_at D)] | None => [] end, Some e, D)
+          end
+      end
+  end.
+
+(* ... for the RunTest TestCase.run builds by default *)
 Definition conclude (p : prog) (hs : list handler) (X : list exc) (D : dst) : list tev * option exc * dst :=
   match p_skip p with
   | Some r => ([TOut OSkip [(n_reason, OReason (Some r))]], None, D)
@@ -195,6 +213,8 @@ Definition conclude (p : prog) (hs : list handler) (X : list exc) (D : dst) : li
           end
       end
   end.
+Lemma conclude_default p hs X D : conclude p hs X D = conclude_with last_resort p hs X D.
+Proof. reflexivity. Qed.
 
 Lemma choose_nil hs : choose hs [] = None.
 Proof. reflexivity. Qed.
@@ -208,13 +228,13 @@ Lemma inserted_skipped p : skipped p = true -> inserted p = [].
 Proof. unfold inserted. now intros ->. Qed.
 
 (* TestCase.run on an instance in any state *)
-Theorem run_from_spec p s :
+Theorem run_from_with_spec lr p s :
   let X := collected_run p (force s) in
   let hs := handlers_of (rev (inserted p) ++ uh s) in
   let D := prun (run_events p (force s)) (proj (reset s)) in
-  let c := conclude p hs X D in
+  let c := conclude_with lr p hs X D in
   exists s' tr0,
-    run_from p s = (s', snd (fst c), false)
+    run_from_with lr p s = (s', snd (fst c), false)
     /\ map shape (log s') = map shape (log s) ++ expected_log p
     /\ excs s' = X
     /\ force s' = force s || (negb (skipped p) && forced p)
@@ -225,7 +245,7 @@ Theorem run_from_spec p s :
     /\ hcalls tr0 = d_calls D
     /\ proj s' = snd c.
 Proof.
-  cbv zeta. unfold run_from, run_prepared, conclude, collected_run, run_events, expected_log, skipped.
+  cbv zeta. unfold run_from_with, run_prepared_with, conclude_with, collected_run, run_events, expected_log, skipped.
   destruct (p_skip p) as [r|] eqn:Hskip; fold (skipped p); fold (expected_log p).
   - (* skip-decorated: nothing runs *)
     rewrite (inserted_skipped p) by (unfold skipped; now rewrite Hskip).
@@ -284,7 +304,7 @@ Proof.
            repeat (split; [first [assumption | reflexivity]|]).
            rewrite !proj_add_call by reflexivity. exact Q8.
       * (* no handler claims it: last resort, then it propagates *)
-        destruct last_resort as [o|].
+        destruct lr as [o|].
         -- eexists. exists (tr t0). split; [reflexivity|].
            cbn [log excs force stack attrs uh tr add_tr set_tr fst snd].
            rewrite current_details_proj, P1, <- !app_assoc.
@@ -295,6 +315,33 @@ Proof.
            repeat (split; [first [assumption | reflexivity]|]).
            rewrite !proj_add_call by reflexivity. exact P1.
 Qed.
+
+(* TestCase.run with the default RunTest *)
+Theorem run_from_spec p s :
+  let X := collected_run p (force s) in
+  let hs := handlers_of (rev (inserted p) ++ uh s) in
+  let D := prun (run_events p (force s)) (proj (reset s)) in
+  let c := conclude p hs X D in
+  exists s' tr0,
+    run_from p s = (s', snd (fst c), false)
+    /\ map shape (log s') = map shape (log s) ++ expected_log p
+    /\ excs s' = X
+    /\ force s' = force s || (negb (skipped p) && forced p)
+    /\ stack s' = [] /\ attrs s' = attrs s
+    /\ uh s' = rev (inserted p) ++ uh s
+    /\ tr s' = tr0 ++ fst (fst c) ++ [TStop]
+    /\ calls tr0 = calls (tr s) ++ [TStart]
+    /\ hcalls tr0 = d_calls D
+    /\ proj s' = snd c.
+Proof. exact (run_from_with_spec last_resort p s). Qed.
+
+(* the configuration does not matter - whatever the factory of the case is and however it is installed, also
+   when it cannot be called with last_resort= (fix F27): the run is the run with the default RunTest
+   (C01 carries the configuration in its input; C02, C03, C05 sample configured cases on this ground) *)
+Lemma runner_last_resort_default r : runner_last_resort r = last_resort.
+Proof. unfold runner_last_resort. destruct (accepts_last_resort (r_factory r)); reflexivity. Qed.
+Theorem factory_irrelevant r p s : run_from_runner r p s = run_from p s.
+Proof. unfold run_from_runner, run_from. now rewrite runner_last_resort_default. Qed.
 
 (* ------------------------------------------------------------------ *)
 (* induction over statements with the bodies of registered cleanups     *)
